@@ -120,6 +120,9 @@ impl<T: Sync + Send + 'static> Worker<T> {
                 Match { score, idx }
             });
             self.matches.par_extend(items);
+            // the parallel scan records in-flight items in arbitrary order but
+            // `remove_in_flight_matches` relies on ascending indices
+            self.in_flight.sort_unstable();
             self.last_snapshot = end;
         }
     }
